@@ -4,7 +4,8 @@ generators, conversion to the harness line format (`verif-harness server`) and t
 
 A case is a tuple (link, units, auth, frames):
   link   'tcp' | 'rtu'
-  units  tuple of (uid, m, c, rex, wex, coils, discrete, holding, input)   (tuples of tuples)
+  units  tuple of (uid, m, c, rex, wex, coils, discrete, holding, input)   (tuples of tuples); a 10th field
+         `owner` makes unit id uid hold the SAME handler object as unit id owner (its other fields are unused)
   auth   None | ('ro', role) | ('deny', role) | ('hash', role, seed, pct)     role = bytes (utf-8)
   frames tuple of (tx, dest, pdu)   tx = int (tcp) / None (rtu), dest = unit id byte, pdu = bytes
 On RTU destination byte 0 is the broadcast address.
@@ -13,8 +14,8 @@ import vlib
 
 QTY = [0, 1, 7, 8, 9, 123, 124, 125, 126, 1968, 1969, 1976, 1977, 2000, 2001, 2008]
 KNOWN_FC = [1, 2, 3, 4, 5, 6, 15, 16]
-SPEC_MODULES = ['Base.Show', 'Base.ServerTypes', 'Spec.Modbus', 'Model.ServerRender']
-MODULES = SPEC_MODULES + ['Model.Server', 'Model.ServerExec']
+SPEC_MODULES = ['Base.Show', 'Base.ServerTypes', 'Base.ServerRun', 'Spec.Modbus', 'Model.ServerRender']
+MODULES = SPEC_MODULES + ['Model.Server', 'Model.ServerRun', 'Model.ServerExec']
 STATE = {'model_ok': True}
 
 
@@ -65,7 +66,8 @@ def auth_str(auth):
 
 def to_line(case):
     link, units, auth, frames = case
-    us = ';'.join(f'{u[0]}:{u[1]}:{u[2]}:{_tl(u[3])}:{_tl(u[4])}:{_tl(u[5])}:{_tl(u[6])}:{_tl(u[7])}:{_tl(u[8])}' for u in units) or '-'
+    us = ';'.join(f'{u[0]}:={u[9]}' if len(u) > 9 else
+                  f'{u[0]}:{u[1]}:{u[2]}:{_tl(u[3])}:{_tl(u[4])}:{_tl(u[5])}:{_tl(u[6])}:{_tl(u[7])}:{_tl(u[8])}' for u in units) or '-'
     fs = ','.join(adu(link, f).hex().upper() for f in frames) or '-'
     return f'{link}|{us}|{auth_str(auth)}|{fs}'
 
@@ -88,7 +90,9 @@ def _tr(ts):
 
 def to_coq(case):
     link, units, auth, frames = case
-    us = '[' + ';'.join(f'mku {u[0]} {u[1]} {u[2]} {_t3(u[3])} {_t3(u[4])} {_tb(u[5])} {_tb(u[6])} {_tr(u[7])} {_tr(u[8])}' for u in units) + ']'
+    um = '[' + ';'.join(f'({u[0]},{u[9] if len(u) > 9 else u[0]})' for u in units) + ']'
+    us = '[' + ';'.join(f'mku {u[0]} {u[1]} {u[2]} {_t3(u[3])} {_t3(u[4])} {_tb(u[5])} {_tb(u[6])} {_tr(u[7])} {_tr(u[8])}'
+                        for u in units if len(u) <= 9) + ']'
     if auth is None:
         a = 'CNone'
     elif auth[0] == 'ro':
@@ -102,7 +106,7 @@ def to_coq(case):
         d = 'DBroadcast' if (link == 'rtu' and dest == 0) else f'(DUnit {dest})'
         t = 'None' if tx is None else f'(Some {tx})'
         fl.append(f'mkf {t} {d} {_nl(pdu)}')
-    return f'({"LTcp" if link == "tcp" else "LRtu"}, {us}, {a}, [{";".join(fl)}])'
+    return f'({"LTcp" if link == "tcp" else "LRtu"}, {um}, {us}, {a}, [{";".join(fl)}])'
 
 
 # ------------------------------------------------------------------------------------------ classification (statistics only)
@@ -287,7 +291,29 @@ def gen_units(r, k=None, frames_hint=()):
                 pts[kk].append((a, r.randrange(2) if kk < 2 else r.randrange(65536)))
         units.append((uid, r.choice([1, 3, 5, 7, 251, 4099, r.randrange(1, 65536)]), r.randrange(65536), tuple(rex), tuple(wex),
                       tuple(pts[0]), tuple(pts[1]), tuple(pts[2]), tuple(pts[3])))
-    return tuple(units)
+    return share_some(r, tuple(units))
+
+
+def share_some(r, units, p=0.25):
+    """with probability p (and at least two units) let one unit id hold another unit's handler object"""
+    if len(units) >= 2 and r.random() < p:
+        i, j = r.sample(range(len(units)), 2)
+        units = list(units)
+        units[i] = shared_unit(units[i][0], units[j][0])
+        if len(units) == 3 and r.random() < 0.3:
+            k = 3 - i - j
+            units[k] = shared_unit(units[k][0], units[j][0])
+        units = tuple(units)
+    return units
+
+
+def shared_unit(uid, owner):
+    return (uid, 0, 0, (), (), (), (), (), (), owner)
+
+
+def units_valid(units):
+    owners = [u[0] for u in units if len(u) <= 9]
+    return all(u[9] in owners for u in units if len(u) > 9)
 
 
 def pick_dest(r, link, units, p_conf=0.8):
@@ -422,8 +448,11 @@ def shrink_candidates(case):
     for i in range(len(frames)):
         yield (link, units, auth, frames[:i] + frames[i + 1:])
     for i in range(len(units)):
-        yield (link, units[:i] + units[i + 1:], auth, frames)
+        if units_valid(units[:i] + units[i + 1:]):
+            yield (link, units[:i] + units[i + 1:], auth, frames)
     for i, u in enumerate(units):
+        if len(u) > 9:
+            continue
         for j in (3, 4, 5, 6, 7, 8):
             if u[j]:
                 yield (link, units[:i] + (u[:j] + ((),) + u[j + 1:],) + units[i + 1:], auth, frames)
@@ -612,6 +641,7 @@ def coverage(ctx, cases, impl, rule, extra_classes=None):
     classes['sessions:tcp'] = sum(1 for c in cases if c[0] == 'tcp')
     classes['sessions:rtu'] = sum(1 for c in cases if c[0] == 'rtu')
     classes['sessions:with-authorization'] = sum(1 for c in cases if c[2] is not None)
+    classes['sessions:with-shared-handler-object'] = sum(1 for c in cases if any(len(u) > 9 for u in c[1]))
     for k in range(4):
         classes[f'sessions:units={k}'] = sum(1 for c in cases if len(c[1]) == k)
     classes['frames'] = sum(len(c[3]) for c in cases)
@@ -639,3 +669,90 @@ def coverage(ctx, cases, impl, rule, extra_classes=None):
         'exhaustive': False,
     })
     return classes
+
+
+# ------------------------------------------------------------------------------------------ sessions with commands
+# a script case is (link, units, auth, script): script entries are frames (tx, dest, pdu) or one of
+# '@min' '@max' (ChangeDecoding), '@shutdown', '@close' (command channel closed), '@block' (writes pend),
+# '@unblock'. While blocked, a frame is followed only by commands until it is resolved.
+def gen_script(r, link):
+    base = gen_session(r, link, nframes=r.choice([1, 2, 3, 4, 6]), big_ok=False, raw=0.05)
+    script = []
+    frames = list(base[3])
+    for i, f in enumerate(frames):
+        for _ in range(r.choice([0, 0, 0, 1, 2])):
+            script.append(r.choice(['@min', '@max']))
+        if r.random() < 0.04:
+            script.append(r.choice(['@shutdown', '@close']))
+        if r.random() < 0.35:
+            script.append('@block')
+            script.append(f)
+            for _ in range(r.choice([0, 0, 1, 2, 3])):
+                script.append(r.choice(['@min', '@max']))
+            k = r.random()
+            if k < 0.6:
+                script.append('@unblock')
+            elif k < 0.75:
+                script.append('@shutdown')
+            elif k < 0.9:
+                script.append('@close')
+            elif i + 1 < len(frames):
+                script.append('@unblock')
+            # else: left pending at the end of the script
+        else:
+            script.append(f)
+    if r.random() < 0.3:
+        script.append(r.choice(['@min', '@max', '@shutdown', '@close']))
+    return (base[0], base[1], base[2], tuple(script))
+
+
+def script_line(case):
+    link, units, auth, script = case
+    head = to_line((link, units, auth, ())).rsplit('|', 1)[0]
+    toks = [x if isinstance(x, str) else adu(link, x).hex().upper() for x in script]
+    return head + '|' + (','.join(toks) or '-')
+
+
+def script_coq(case):
+    link, units, auth, script = case
+    base = to_coq((link, units, auth, ()))
+    assert base.endswith(', [])')
+    evs = []
+    blocked = False
+    for x in script:
+        if isinstance(x, str):
+            if x in ('@min', '@max'):
+                evs.append(f'ECommand (ChangeDecoding {1 if x == "@max" else 0})')
+            elif x == '@shutdown':
+                evs.append('ECommand Shutdown')
+            elif x == '@close':
+                evs.append('EClosed')
+            elif x == '@block':
+                blocked = True
+            elif x == '@unblock':
+                blocked = False
+                evs.append('EWriteDone')
+        else:
+            tx, dest, pdu = x
+            d = 'DBroadcast' if (link == 'rtu' and dest == 0) else f'(DUnit {dest})'
+            t = 'None' if tx is None else f'(Some {tx})'
+            evs.append(f'EFrame (mkf {t} {d} {_nl(pdu)})')
+            if not blocked:
+                evs.append('EWriteDone')
+    return base[:-len('[])')] + '[' + ';'.join(evs) + '])'
+
+
+def run_scripts(ctx, cases):
+    """implementation, model and Spec on script cases; replies are compared as the sequence of replies delivered"""
+    impl = ctx.harness('server', [script_line(c) for c in cases], shards=16, timeout=300)
+    norm = []
+    for i in impl:
+        rep, log, end = split3(i)
+        norm.append(([x for x in rep if x != '-'], log, end))
+    if STATE['model_ok']:
+        res = ctx.coq_eval(MODULES, 'run_both_ev', [script_coq(c) for c in cases], case_type='ecase', per_shard=100)
+        both = [tuple(x.split('#')) for x in res]
+    else:
+        res = ctx.coq_eval(SPEC_MODULES, 'run_spec_ev', [script_coq(c) for c in cases], case_type='ecase', per_shard=100)
+        both = [(None, x) for x in res]
+    return impl, norm, both
